@@ -5,6 +5,7 @@
 // stand-in for iggy::error::IggyError: only the variants constructed by the extracted functions
 pub enum IggyError {
     ConsumerGroupMemberNotFound(u32, u32, u32),
+    Other,      // any error produced by a callee that is not extracted
 }
 
 // ---- A-std: additional container methods (second impl block of the common HashMap stand-in) ----
@@ -211,4 +212,103 @@ pub open spec fn topic_groups_wf(t: Topic) -> bool {
 }
 pub open spec fn topic_groups_inv(t: Topic) -> bool {
     forall|g: u32| t.consumer_groups@.contains_key(g) ==> group_inv(#[trigger] t.consumer_groups@[g]) && members_bound(t.consumer_groups@[g])
+}
+
+// ---- System level ([C08.track] for create/delete partitions): opaque stand-ins and assumed callee contracts ------
+// None of these callees is extracted; they belong to other subsystems (session/authn C09-C10, catalogue lookup C06,
+// partition storage C03/C06, metrics). Their assumed contracts say only what C08 needs: lookups hand out the object
+// the identifiers denote and write it back under the same key; adding/deleting partitions does not touch the
+// consumer groups; metrics and permission checks have no effect on streams.
+#[verifier::external_body]
+pub struct Session { _p: () }
+#[verifier::external_body]
+pub struct Permissioner { _p: () }
+#[verifier::external_body]
+pub struct Metrics { _p: () }
+#[verifier::external_body]
+pub struct Stream { _p: () }
+
+impl Session {
+    #[verifier::external_body]
+    pub fn get_user_id(&self) -> u32 { unimplemented!() }
+}
+impl Permissioner {
+    #[verifier::external_body]
+    pub fn create_partitions(&self, user_id: u32, stream_id: u32, topic_id: u32) -> Result<(), IggyError> { unimplemented!() }
+    #[verifier::external_body]
+    pub fn delete_partitions(&self, user_id: u32, stream_id: u32, topic_id: u32) -> Result<(), IggyError> { unimplemented!() }
+}
+impl Metrics {
+    #[verifier::external_body]
+    pub fn increment_partitions(&self, count: u32) { unimplemented!() }
+    #[verifier::external_body]
+    pub fn increment_segments(&self, count: u32) { unimplemented!() }
+    #[verifier::external_body]
+    pub fn decrement_partitions(&self, count: u32) { unimplemented!() }
+    #[verifier::external_body]
+    pub fn decrement_segments(&self, count: u32) { unimplemented!() }
+    #[verifier::external_body]
+    pub fn decrement_messages(&self, count: u64) { unimplemented!() }
+}
+
+// which stream of the system / which topic of a stream an identifier denotes (C06's subject)
+pub uninterp spec fn stream_of(s: System, id: Identifier) -> Option<u32>;
+pub uninterp spec fn stream_topic(st: Stream, id: Identifier) -> Topic;
+
+impl Stream {
+    #[verifier::external_body]
+    pub fn get_topic_mut<'a>(&'a mut self, identifier: &Identifier) -> (r: Result<&'a mut Topic, IggyError>)
+        ensures
+            match r {
+                Ok(t) => *t == stream_topic(*old(self), *identifier) && stream_topic(*final(self), *identifier) == *final(t),
+                Err(_) => *final(self) == *old(self),
+            },
+    { unimplemented!() }
+}
+impl System {
+    #[verifier::external_body]
+    pub fn ensure_authenticated(&self, session: &Session) -> Result<(), IggyError> { unimplemented!() }
+    #[verifier::external_body]
+    pub fn find_topic(&self, session: &Session, stream_id: &Identifier, topic_id: &Identifier) -> Result<&Topic, IggyError> { unimplemented!() }
+    #[verifier::external_body]
+    pub fn get_stream_mut<'a>(&'a mut self, identifier: &Identifier) -> (r: Result<&'a mut Stream, IggyError>)
+        ensures
+            final(self).permissioner == old(self).permissioner && final(self).metrics == old(self).metrics,
+            forall|id: Identifier| stream_of(*final(self), id) == stream_of(*old(self), id),
+            match r {
+                Ok(st) => {
+                    &&& stream_of(*old(self), *identifier) is Some
+                    &&& old(self).streams@.contains_key(stream_of(*old(self), *identifier)->0)
+                    &&& *st == old(self).streams@[stream_of(*old(self), *identifier)->0]
+                    &&& final(self).streams@ == old(self).streams@.insert(stream_of(*old(self), *identifier)->0, *final(st))
+                },
+                Err(_) => final(self).streams@ == old(self).streams@,
+            },
+    { unimplemented!() }
+}
+impl Topic {
+    // topics/partitions.rs (not extracted): creates/deletes partition objects and their files. Assumed for C08: the
+    // consumer groups are not touched, and the partition map stays within the u32 id space.
+    #[verifier::external_body]
+    pub fn add_persisted_partitions(&mut self, count: u32) -> (r: Result<Vec<u32>, IggyError>)
+        ensures final(self).consumer_groups == old(self).consumer_groups, final(self).partitions@.len() <= u32::MAX,
+    { unimplemented!() }
+    #[verifier::external_body]
+    pub fn delete_persisted_partitions(&mut self, count: u32) -> (r: Result<Option<DeletedPartitions>, IggyError>)
+        ensures final(self).consumer_groups == old(self).consumer_groups, final(self).partitions@.len() <= u32::MAX,
+    { unimplemented!() }
+}
+
+// [C08.track] every group of the topic counts exactly the topic's partitions and is dealt accordingly
+pub open spec fn topic_tracks(t: Topic) -> bool {
+    forall|g: u32| t.consumer_groups@.contains_key(g)
+        ==> (#[trigger] t.consumer_groups@[g]).partitions_count as int == t.partitions@.len() && group_inv(t.consumer_groups@[g])
+}
+pub open spec fn sys_topic_tracks(s: System, sid: Identifier, tid: Identifier) -> bool {
+    &&& stream_of(s, sid) is Some
+    &&& s.streams@.contains_key(stream_of(s, sid)->0)
+    &&& topic_tracks(stream_topic(s.streams@[stream_of(s, sid)->0], tid))
+}
+pub open spec fn sys_groups_wf(s: System) -> bool {
+    forall|k: u32, tid: Identifier| s.streams@.contains_key(k) ==> topic_groups_wf(#[trigger] stream_topic(s.streams@[k], tid))
 }
